@@ -514,7 +514,7 @@ def crash_scenarios():
 
 
 def gen(rng, tier):
-    n = {"quick": 2000, "thorough": 60000, "search": 9000}[tier]
+    n = {"quick": 3000, "thorough": 60000, "search": 9000}[tier]
     if tier != "search":
         for s in crash_scenarios():
             yield s
